@@ -189,6 +189,21 @@ fn op_name(o: Op) -> String {
 }
 
 pub fn replay_json(v: &Value) -> Result<(), String> {
+    if v["ops"][0].as_str().map(|s| s.starts_with("CreatePages")).unwrap_or(false) {
+        let pages: usize = v["ops"][0].as_str().unwrap()["CreatePages".len()..].parse().unwrap();
+        warm();
+        for _ in 0..3 {
+            let (m0, f0) = (count_maps(), count_fds());
+            let b = Buffer::<u8>::new(pages * PAGE).map_err(|e| format!("{e}"))?;
+            let m1 = count_maps();
+            drop(b);
+            let (m2, f2) = (count_maps(), count_fds());
+            if m1 <= m0 || m2 != m0 || f2 != f0 {
+                return Err(format!("[leak] {pages}-page stream: mappings {m0} -> {m1} -> {m2}, descriptors {f0} -> {f2}"));
+            }
+        }
+        return Ok(());
+    }
     let seq: Vec<Op> = v["ops"]
         .as_array()
         .unwrap()
@@ -268,6 +283,42 @@ pub fn run(tier: &str, shard: Option<&str>) -> Report {
             }
         }
         layer = next;
+    }
+    // Sizes: one create/drop per size, in two orders, around the sizes at
+    // which a mapping strategy may change (huge-page multiples).
+    if si == 0 {
+        let sizes_pages = [1usize, 2, 3, 7, 16, 511, 512, 513, 1000, 1024, 1536, 2048];
+        for round in 0..3 {
+            for pages in sizes_pages {
+                let (m0, f0) = (count_maps(), count_fds());
+                rep.evaluations += 1;
+                rep.distinct_nontrivial += 1;
+                let case = json!({"engine": "maps", "ops": [format!("CreatePages{pages}"), "DropNewest"], "round": round});
+                let b = match catch(|| Buffer::<u8>::new(pages * PAGE)) {
+                    Ok(Ok(b)) => b,
+                    Ok(Err(e)) => {
+                        rep.violation("C18/Buffer/create-failed".to_string(), format!("{pages} pages: {e}"), case);
+                        continue;
+                    }
+                    Err(p) => {
+                        rep.violation("C18/Buffer/panic".to_string(), format!("{pages} pages: {p}"), case);
+                        continue;
+                    }
+                };
+                let (m1, f1) = (count_maps(), count_fds());
+                drop(b);
+                let (m2, f2) = (count_maps(), count_fds());
+                // (The kernel may merge or split neighbouring mappings of the
+                // same file: while alive only "at least one more" is required.)
+                if m1 <= m0 || f1 != f0 || m2 != m0 || f2 != f0 {
+                    rep.violation(
+                        "C18/Buffer/leak".to_string(),
+                        format!("{pages}-page stream (round {round}): mappings {m0} -> {m1} -> {m2} after drop, descriptors {f0} -> {f1} -> {f2}"),
+                        case,
+                    );
+                }
+            }
+        }
     }
     rep.states = rep.evaluations;
     rep.traces_validated = rep.evaluations;
